@@ -48,30 +48,57 @@ Proof.
     injection H as <-; exists p; split; [eapply candidates_head; exact Ec|reflexivity].
 Qed.
 
-Lemma step_coherent cfg s l :
-  coherent cfg s -> informer_ok (store s) l -> coherent cfg (step cfg s l).
+Lemma informer_ok_safe st l : informer_ok st l -> delivery_safe st l.
+Proof.
+  destruct l as [p|old new|p|ip]; cbn; [| | |trivial].
+  - intros Hn q Hq. rewrite Hn in Hq. discriminate Hq.
+  - intros [_ Hold] q Hq Hi. rewrite Hold in Hq. injection Hq as ->. auto.
+  - intros Hp q Hq Hi. rewrite Hp in Hq. injection Hq as ->. auto.
+Qed.
+
+(* one step keeps the invariant, under the weak contract *)
+Lemma step_coherent_safe cfg s l :
+  coherent cfg s -> delivery_safe (store s) l -> coherent cfg (step cfg s l).
 Proof.
   intros Hc Hok. destruct l as [p|old new|p|ip]; cbn [step].
   - (* Add *)
     cbn in Hok. intros ip i H. cbn [memo store] in *.
-    destruct (Hc _ _ H) as [q [[k [Hk Hq]] ->]].
-    exists q. split; [|reflexivity]. exists k. split; [|exact Hq].
-    rewrite lookup_insert_ne; [exact Hk|]. intros <-. rewrite Hok in Hk. discriminate Hk.
+    destruct (Hc _ _ H) as [q [[k [Hk [Hqi Hqip]]] ->]].
+    exists q. split; [|reflexivity]. exists k. split; [|auto].
+    rewrite lookup_insert_ne; [exact Hk|]. intros <-.
+    rewrite (Hok _ Hk) in Hqi. discriminate Hqi.
   - (* Update *)
-    destruct Hok as [Hkey Hold]. intros ip i H. cbn [memo store] in *.
+    cbn in Hok. intros ip i H. cbn [memo store] in *.
     apply invalidate_lookup in H as [H Hne].
     destruct (Hc _ _ H) as [q [[k [Hk [Hqi Hqip]]] ->]].
     exists q. split; [|reflexivity]. exists k. split; [|auto].
     rewrite lookup_insert_ne; [exact Hk|]. intros <-.
-    rewrite Hold in Hk. injection Hk as ->. exact (Hne Hqi Hqip).
+    destruct (Hok _ Hk Hqi) as [Hoi Hoip]. apply (Hne Hoi). congruence.
   - (* Delete *)
     cbn in Hok. intros ip i H. cbn [memo store] in *.
     apply invalidate_lookup in H as [H Hne].
     destruct (Hc _ _ H) as [q [[k [Hk [Hqi Hqip]]] ->]].
     exists q. split; [|reflexivity]. exists k. split; [|auto].
     rewrite lookup_delete_ne; [exact Hk|]. intros <-.
-    rewrite Hok in Hk. injection Hk as ->. exact (Hne Hqi Hqip).
+    destruct (Hok _ Hk Hqi) as [Hpi Hpip]. apply (Hne Hpi). congruence.
   - apply lookup_state_coherent. exact Hc.
+Qed.
+
+Lemma step_coherent cfg s l :
+  coherent cfg s -> informer_ok (store s) l -> coherent cfg (step cfg s l).
+Proof. intros Hc Hok. apply step_coherent_safe; [exact Hc|apply informer_ok_safe, Hok]. Qed.
+
+Lemma run_coherent_safe cfg ls : forall s,
+  coherent cfg s -> history_safe cfg s ls -> coherent cfg (run cfg s ls).
+Proof.
+  induction ls as [|l r IH]; intros s Hc Hh; cbn in *; [exact Hc|].
+  destruct Hh as [Hok Hr]. apply IH; [apply step_coherent_safe; assumption|exact Hr].
+Qed.
+
+Lemma history_ok_safe cfg ls : forall s, history_ok cfg s ls -> history_safe cfg s ls.
+Proof.
+  induction ls as [|l r IH]; intros s H; cbn in *; [exact I|].
+  destruct H as [Hok Hr]. split; [apply informer_ok_safe, Hok|apply IH, Hr].
 Qed.
 
 Lemma run_coherent cfg ls : forall s,
@@ -242,4 +269,168 @@ Lemma derive_spec cfg p :
                    tag = tag_name r k ++ c_colon :: v).
 Proof.
   split; [reflexivity|]. intros tag. cbn [derive i_tags]. rewrite in_app_iff, !tags_of_spec. tauto.
+Qed.
+
+(* ---------------------------------------------------------------- the statements of Props/C13.v *)
+
+(* the memo invariant, in every state reachable by a history of informer deliveries and lookups:
+   a memoised instance is derived from a pod version that is stored now, indexable, and holds
+   the IP; if at most one indexable pod holds the IP it is derived from *the* pod holding it *)
+Lemma memo_coherent_full cfg ls :
+  history_ok cfg init ls ->
+  let s := run cfg init ls in
+  forall ip i, memo s !! ip = Some (Some i) ->
+    (exists p, holds (store s) ip p /\ i = derive cfg p) /\
+    (unique_holder (store s) ip -> forall p, holds (store s) ip p -> i = derive cfg p).
+Proof.
+  intros Hh s ip i Hm. pose proof (memo_coherent cfg ls Hh ip i Hm) as [q [Hq ->]].
+  split; [exists q; auto|]. intros Hu p Hp. rewrite (Hu _ _ Hp Hq). reflexivity.
+Qed.
+
+(* the same under the weak delivery contract *)
+Lemma memo_coherent_safe cfg ls :
+  history_safe cfg init ls ->
+  let s := run cfg init ls in
+  forall ip i, memo s !! ip = Some (Some i) ->
+    (exists p, holds (store s) ip p /\ i = derive cfg p) /\
+    (unique_holder (store s) ip -> forall p, holds (store s) ip p -> i = derive cfg p).
+Proof.
+  intros Hh s ip i Hm.
+  pose proof (run_coherent_safe cfg ls init (coherent_init cfg) Hh ip i Hm) as [q [Hq ->]].
+  split; [exists q; auto|]. intros Hu p Hp. rewrite (Hu _ _ Hp Hq). reflexivity.
+Qed.
+
+(* every lookup of every history: the answer is the instance of the pod holding the IP at that
+   moment, and nothing exactly when no pod holds it *)
+Lemma lookup_current_full cfg before ip after :
+  history_ok cfg init (before ++ Lookup ip :: after) ->
+  let s := run cfg init before in
+  unique_holder (store s) ip ->
+  match fst (lookup cfg s ip) with
+  | Some i => exists p, holds (store s) ip p /\ i = derive cfg p /\
+                        forall q, holds (store s) ip q -> q = p
+  | None => forall p, ~ holds (store s) ip p
+  end.
+Proof.
+  intros Hh s Hu. apply history_ok_app in Hh as [Hb _].
+  pose proof (memo_coherent cfg before Hb) as Hc. fold s in Hc.
+  destruct (fst (lookup cfg s ip)) as [i|] eqn:E.
+  - destruct (lookup_from_current _ _ _ _ Hc E) as [p [Hp ->]].
+    exists p. split; [exact Hp|]. split; [reflexivity|]. intros q Hq. exact (Hu _ _ Hq Hp).
+  - apply lookup_none with (cfg := cfg). exact E.
+Qed.
+
+(* without any hypothesis on IPs: an answer is never data of a version that is not stored now *)
+Lemma lookup_never_stale cfg before ip after i :
+  history_ok cfg init (before ++ Lookup ip :: after) ->
+  let s := run cfg init before in
+  fst (lookup cfg s ip) = Some i ->
+  exists k p, store s !! k = Some p /\ indexable p = true /\ p_ip p = ip /\ i = derive cfg p.
+Proof.
+  intros Hh s E. apply history_ok_app in Hh as [Hb _].
+  destruct (answer_from_current_version cfg before ip i Hb E) as [p [[k [Hk [Hi Hip]]] ->]].
+  exists k, p. auto.
+Qed.
+
+(* memoisation is invisible: the answer is the one computed afresh from the index *)
+Lemma memo_transparent cfg before ip after :
+  history_ok cfg init (before ++ Lookup ip :: after) ->
+  let s := run cfg init before in
+  unique_holder (store s) ip ->
+  fst (lookup cfg s ip) = fst (lookup cfg (MkSt (store s) ∅) ip).
+Proof.
+  intros Hh s Hu. apply history_ok_app in Hh as [Hb _].
+  destruct (lookup_current cfg before ip Hb Hu) as [Hsome Hnone]. fold s in Hsome, Hnone.
+  unfold lookup at 2. cbn [memo store]. rewrite lookup_empty. cbn [fst].
+  destruct (candidates (store s) ip) as [|p r] eqn:Ec.
+  - apply Hnone. apply candidates_nil. exact Ec.
+  - apply Hsome. eapply candidates_head. exact Ec.
+Qed.
+
+(* ---------------------------------------------------------------- examples *)
+
+Local Open Scope N_scope.
+Definition ex_pod (name : N) (ip : str) (labels : list (str * str)) : pod :=
+  MkPod [100] [name] ip [104] Running false false labels [].
+(* a regex like ^app : matches the key "app" as a whole, no groups *)
+Definition ex_re : regex :=
+  MkRe (fun k => if str_eqb k [97; 112; 112] then Some (k, []) else None).
+Definition ex_cfg : config := MkCfg (Some ex_re) None.
+Definition ex_a1 := ex_pod 97 [49] [([97; 112; 112], [120])].
+Definition ex_a2 := ex_pod 97 [49] [([97; 112; 112], [121])].
+Definition ex_b := ex_pod 98 [49] [].
+(* pod a is looked up, relabelled, looked up, deleted; pod b reuses the IP *)
+Definition ex_before := [Add ex_a1; Lookup [49]; Update ex_a1 ex_a2; Lookup [49]; Delete ex_a2; Add ex_b].
+
+(* the hypotheses of the theorems are satisfiable on a history where staleness would show:
+   the memo holds a1's instance when a1 is replaced, a2's when a2 is deleted *)
+Example hypotheses_satisfiable :
+  history_ok ex_cfg init (ex_before ++ [Lookup [49]]) /\
+  unique_holder (store (run ex_cfg init ex_before)) [49] /\
+  holds (store (run ex_cfg init ex_before)) [49] ex_b /\
+  memo (run ex_cfg init [Add ex_a1; Lookup [49]]) !! [49] = Some (Some (derive ex_cfg ex_a1)) /\
+  fst (lookup ex_cfg (run ex_cfg init [Add ex_a1; Lookup [49]; Update ex_a1 ex_a2]) [49])
+    = Some (MkInst [100; 47; 97] [[97; 112; 112; 58; 121]]) /\
+  fst (lookup ex_cfg (run ex_cfg init ex_before) [49]) = Some (MkInst [100; 47; 98] []).
+Proof.
+  split; [|split; [|split; [|split; [|split]]]].
+  - vm_compute. tauto.
+  - intros p q Hp Hq. apply candidates_holds in Hp, Hq.
+    vm_compute in Hp, Hq. destruct Hp as [<-|[]]. destruct Hq as [<-|[]]. reflexivity.
+  - apply candidates_holds. vm_compute. left. reflexivity.
+  - vm_compute. reflexivity.
+  - vm_compute. reflexivity.
+  - vm_compute. reflexivity.
+Qed.
+
+(* without "at most one indexable pod per IP" the strong form of the invariant fails: two
+   running pods share an IP, a lookup memoises one of them, the other is a current holder whose
+   instance differs *)
+Definition ex_c := ex_pod 99 [49] [].
+Example needs_unique_ip :
+  exists cfg ls ip i p,
+    history_ok cfg init ls /\
+    memo (run cfg init ls) !! ip = Some (Some i) /\
+    holds (store (run cfg init ls)) ip p /\
+    i <> derive cfg p.
+Proof.
+  exists ex_cfg, [Add ex_b; Add ex_c; Lookup [49]], [49].
+  set (s := run ex_cfg init [Add ex_b; Add ex_c; Lookup [49]]).
+  assert (Hb : holds (store s) [49] ex_b).
+  { exists [100; 47; 98]. split; [vm_compute; reflexivity|auto]. }
+  assert (Hc : holds (store s) [49] ex_c).
+  { exists [100; 47; 99]. split; [vm_compute; reflexivity|auto]. }
+  assert (Hok : history_ok ex_cfg init [Add ex_b; Add ex_c; Lookup [49]]) by (vm_compute; tauto).
+  destruct (memo s !! [49]) as [[i|]|] eqn:Em.
+  - exists i. destruct (decide (i_id i = [100; 47; 98])) as [Hid|Hid].
+    + exists ex_c. repeat split; try assumption. intros ->. vm_compute in Hid. discriminate Hid.
+    + exists ex_b. repeat split; try assumption. intros ->. apply Hid. reflexivity.
+  - exfalso. vm_compute in Em. discriminate Em.
+  - exfalso. vm_compute in Em. discriminate Em.
+Qed.
+
+(* the informer contract is used too: a Delete that announces a version other than the stored one
+   (here: already marked finished) leaves the deleted pod's instance memoised *)
+Example needs_informer_contract :
+  let gone := MkPod [100] [98] [49] [104] Succeeded false false [] [] in
+  let ls := [Add ex_b; Lookup [49]; Delete gone] in
+  ~ history_safe ex_cfg init ls /\
+  fst (lookup ex_cfg (run ex_cfg init ls) [49]) = Some (derive ex_cfg ex_b) /\
+  forall p, ~ holds (store (run ex_cfg init ls)) [49] p.
+Proof.
+  intros gone ls. split; [|split].
+  - intros [_ [_ [H _]]]. cbn in H. specialize (H ex_b).
+    destruct H as [H _]; [vm_compute; reflexivity|reflexivity|]. vm_compute in H. discriminate H.
+  - vm_compute. reflexivity.
+  - apply candidates_nil. vm_compute. reflexivity.
+Qed.
+
+Lemma needs_informer_contract_ex :
+  exists cfg ls ip i,
+    ~ history_safe cfg init ls /\
+    fst (lookup cfg (run cfg init ls) ip) = Some i /\
+    forall p, ~ holds (store (run cfg init ls)) ip p.
+Proof.
+  destruct needs_informer_contract as [H1 [H2 H3]].
+  eexists ex_cfg, _, [49], _. split; [exact H1|]. split; [exact H2|exact H3].
 Qed.
